@@ -76,18 +76,24 @@ REC_P_OFFS = re.compile(
     r'(\w+)\s*([\-+]\s*\d+|=\s*%s)?' % TaskID.NAME_SUFFIX_RE)
 
 
-def item_in_iterable(item, itt):
-    """Return True if item is in itt, by string or int comparison.
+def coerce_value(val, values):
+    """Interpret a specific parameter value like the parameter's own values.
 
-    Items may be general strings, or strings of zero-padded integers.
+    Integer parameters accept (zero-padded) integers; values of string
+    parameters are taken literally, even if they look like numbers.
     """
-    if item in itt:
-        return True
-    try:
-        int(item)
-    except ValueError:
-        return False
-    return int(item) in (int(i) for i in itt)
+    val = val.strip()
+    if all(isinstance(v, int) for v in values):
+        try:
+            return int(val)
+        except ValueError:
+            return val
+    return val
+
+
+def item_in_iterable(item, itt):
+    """Return True if item is in itt."""
+    return item in itt
 
 
 class NameExpander:
@@ -145,12 +151,8 @@ class NameExpander:
                                     pname, sval))
                         elif sval.startswith('='):
                             # Check that specific parameter values exist.
-                            val = sval[1:].strip()
-                            # Pad integer values here.
-                            try:
-                                nval = int(val)
-                            except ValueError:
-                                nval = val
+                            nval = coerce_value(
+                                sval[1:], self.param_cfg[pname])
                             if not item_in_iterable(
                                     nval, self.param_cfg[pname]):
                                 raise ParamExpandError(
@@ -369,11 +371,7 @@ class GraphExpander:
                             pname, p_group, line))
                 if offs and offs.startswith('='):
                     # Check that specific parameter values exist.
-                    val = offs[1:]
-                    try:
-                        nval = int(val)
-                    except ValueError:
-                        nval = val
+                    nval = coerce_value(offs[1:], self.param_cfg[pname])
                     if not item_in_iterable(nval, self.param_cfg[pname]):
                         raise ParamExpandError(
                             "parameter %s out of range: %s" % (
@@ -405,11 +403,9 @@ class GraphExpander:
                         param_values[pname] = values[pname]
                     elif offs[0] == '=':
                         # Specific value.
-                        try:
-                            # Template may require an integer
-                            param_values[pname] = int(offs[1:])
-                        except ValueError:
-                            param_values[pname] = offs[1:]
+                        # Template may require an integer
+                        param_values[pname] = coerce_value(
+                            offs[1:], all_params[pname])
                     else:
                         # Index offset.
                         plist = all_params[pname]
